@@ -235,13 +235,15 @@ def inventory(repo):
             line = src.count("\n", 0, m.start()) + 1
             clause_text = re.sub(r"\\\n", " ", m.group(1))
             clause_text = re.sub(r"\s+", " ", clause_text).strip()
-            kind = clause_text.split("private")[0].split(" if")[0].strip()
+            kind = re.split(r"\b(?:first|last)?private\b|\bif\b", clause_text)[0].strip()
             priv = []
             pm = re.search(r"private\s*\(([^)]*)\)", clause_text)
             if pm:
                 priv = sorted(x.strip() for x in pm.group(1).split(",") if x.strip())
-            im = re.search(r"\bif\s*\(([^)]*)\)", clause_text)
-            cond = im.group(1).strip() if im else None
+            im = re.search(r"\bif\s*\(", clause_text)
+            cond = None
+            if im:
+                cond = clause_text[im.end():match_brace(clause_text, im.end() - 1, "(", ")")].strip()
             fn = None
             fbody = None
             fhdr = None
@@ -249,7 +251,9 @@ def inventory(repo):
                 if a < m.start() < b:
                     fn, fbody, fhdr = name, src[a:b + 1], hdr
             loop = analyse_loop(src, m.end())
-            rec = {"file": "c/" + f, "line": line, "function": fn, "directive": kind, "private": priv, "if": cond}
+            macros = dict(re.findall(r"^[ \t]*#define\s+(\w+)\s+(\(?-?\d+\)?)\s*$", src, re.M))
+            cond_resolved = None if cond is None else re.sub(r"\b(\w+)\b", lambda mm: macros.get(mm.group(1), mm.group(1)).strip("()"), cond)
+            rec = {"file": "c/" + f, "line": line, "function": fn, "directive": kind, "private": priv, "if": cond, "if_resolved": cond_resolved}
             if loop and fbody is not None:
                 var, bound, body = loop
                 decls = local_decls(fbody)
